@@ -104,7 +104,7 @@ theorem verifyCore_ok (env : Env) (c : CheckerCfg) (tok : Bytes) (h : (verifyCor
       claimsFail c.claims p.claims env.now = false ∧
       configPost (afterCb c p).2 p.alg p.sig.length = none ∧
       (p.sig.length = 0 ∨ ∃ k, (afterCb c p).2.key = some k ∧
-        (verifySig env k p.alg (p.head ++ [46] ++ p.payload) p.sig).1 = none) := by
+        (verifySig env k p.alg (signingInput p.head p.payload) p.sig).1 = none) := by
   unfold verifyCore at h
   cases hp : parse env.jc tok with
   | error e => simp [hp] at h
@@ -135,12 +135,11 @@ theorem verifyCore_ok (env : Env) (c : CheckerCfg) (tok : Bytes) (h : (verifyCor
               | some k =>
                 simp only [hk] at h
                 refine ⟨k, rfl, ?_⟩
-                cases hv : verifySig env k p.alg (p.head ++ [46] ++ p.payload) p.sig with
+                cases hv : verifySig env k p.alg (signingInput p.head p.payload) p.sig with
                 | mk e tr =>
                   cases e with
                   | none => rfl
                   | some e =>
-                    simp only [List.append_assoc, List.cons_append, List.nil_append] at hv h
                     simp [hv] at h
     · simp [hr] at h
 
